@@ -1,7 +1,7 @@
 (* Extraction of the executable models (ExtrOcamlBasic only: bool/option/unit/list/prod/sumbool
    become the OCaml types; N, Z, positive, nat stay Coq datatypes). *)
 From Coq Require Import Extraction ExtrOcamlBasic.
-From GGRS Require Import Base Varint Rle Codec Builder Queue TimeSync Endpoint.
+From GGRS Require Import Base Varint Rle Codec Builder Queue Sync P2P TimeSync Endpoint.
 (* Z is used by every level driver *)
 From Coq Require Import ZArith.
 Extraction Language OCaml.
@@ -12,4 +12,6 @@ Extraction "model.ml" Z.add N.add Nat.add
   Queue.reset_prediction Queue.set_frame_delay Queue.set_frame_delay_old
   TimeSync.ts_new TimeSync.ts_advance_frame TimeSync.ts_average_frame_advantage
   TimeSync.ts_round_trip_time TimeSync.ts_update_local_frame_advantage TimeSync.ts_report_frame_advantage
-  Endpoint.ep_new Endpoint.step Endpoint.drain Endpoint.network_stats Endpoint.last_recv_frame Endpoint.is_running Endpoint.is_synchronized Z.mul Z.div Z.modulo.
+  Endpoint.ep_new Endpoint.step Endpoint.drain Endpoint.network_stats Endpoint.last_recv_frame Endpoint.is_running Endpoint.is_synchronized Z.mul Z.div Z.modulo
+  P2P.p2p_new P2P.gossip P2P.advance P2P.api_add_local_input P2P.api_disconnect_player P2P.api_set_input_delay
+  P2P.ev_input P2P.ev_disconnected P2P.with_running P2P.confirmed_frame.
